@@ -64,12 +64,14 @@ CLAIM = dict(
 # ---------------------------------------------------------------------------
 # deterministic data, objects, operations (JSON-able descriptions)
 
-SHAPES = {0: (8, 8), 1: (8, 8), 2: (6, 10), 3: (8, 8, 3), 4: (8, 8), 5: (4, 4, 4)}
+SHAPES = {0: (8, 8), 1: (8, 8), 2: (6, 10), 3: (8, 8, 3), 4: (8, 8), 5: (4, 4, 4), 6: (8, 8)}
+FLOAT32 = {6}  # data of a narrower dtype with the shape of data 0 / 1 / 4 (buffers re-used across calls must not keep a dtype)
 
 
 def data(k):
     rs = np.random.RandomState(1000 + k)
-    return np.round(rs.rand(*SHAPES[k]) * 64) / 64  # dyadic, reproducible across processes
+    a = np.round(rs.rand(*SHAPES[k]) * 64) / 64  # dyadic, reproducible across processes
+    return a.astype(np.float32) if k in FLOAT32 else a
 
 
 def coef_array(k):
@@ -84,7 +86,11 @@ OBJECTS = {
             dict(depth=1, sm=2, maxiter=2, dim=2, mass=0.0, diff=2.0)],
     "aas": [dict(depth=2, restart=3), dict(depth=3, restart=None)],
     "ws": [dict(kind=k, solver=sv, formulation=fm) for k in ("newton", "bregman")
-           for sv, fm in (("direct", "full"), ("direct", "pressure"), ("amg", "pressure"))],
+           for sv, fm in (("direct", "full"), ("direct", "pressure"), ("amg", "pressure"))]
+          + [dict(kind="bregman", solver="amg", formulation="pressure",
+                  amg_options={"max_coarse": 4, "strength": ("symmetric", {"theta": 0.1}),
+                               "presmoother": ("gauss_seidel", {"sweep": "forward", "iterations": 2}),
+                               "postsmoother": ("gauss_seidel", {"sweep": "backward", "iterations": 2})})],
 }
 
 
@@ -120,6 +126,9 @@ class Objs:
                     "aa_depth": 2, "aa_restart": 3, "verbose": False, "linear_solver": o["solver"], "formulation": o["formulation"]}
             if o["solver"] == "amg":
                 opts["linear_solver_options"] = {"atol": 1e-10}
+            if "amg_options" in o:
+                opts["amg_options"] = json.loads(json.dumps(o["amg_options"]))  # a user's tuned hierarchy (fresh dict per object)
+                opts["amg_options"] = {k: tuple(v) if isinstance(v, list) else v for k, v in opts["amg_options"].items()}
             cls = d.WassersteinDistanceNewton if o["kind"] == "newton" else d.WassersteinDistanceBregman
             self._ws[i] = cls(grid, None, opts)
         return self._ws[i]
@@ -172,6 +181,7 @@ def execute(d, objs, op):
         return call(run)
     if k == "di":
         def run():
+            np.random.seed(20240607)  # pyamg draws from numpy's global generator when it builds a hierarchy
             r = objs.ws(op["i"])(wimage(d, op["pair"]), wimage(d, op["pair"] + 1))
             return np.asarray(r[0] if isinstance(r, tuple) else r, dtype=float)
         return call(run)
@@ -502,6 +512,7 @@ GROUPS = {
         dict(op="h1", solver="d", mu=0.5, omega=1.0, data=2),
         dict(op="h1", solver="d", mu=1.0, omega=1.0, data=3),
         dict(op="h1", solver="d", mu=0.5, omega=1.0, data=5, dim=3),
+        dict(op="h1", solver="d", mu=0.5, omega=1.0, data=6),
     ],
     "sb-default": [
         dict(op="sb", solver="d", mu=0.125, omega=1.0, ell=None, iters=3, data=0),
@@ -513,6 +524,7 @@ GROUPS = {
         dict(op="jc", i=0, h=1.0, data=0),
         dict(op="jc", i=0, h=0.5, data=0),
         dict(op="jc", i=0, h=1.0, data=2),
+        dict(op="jc", i=0, h=1.0, data=6),
         dict(op="ju", i=0, diff=5.0),
         dict(op="ju", i=0, mass=2.0, dim=2),
         dict(op="h1", solver=["j", 0], mu=3.0, omega=1.0, data=1),
@@ -522,6 +534,7 @@ GROUPS = {
         dict(op="mc", i=0, data=0),
         dict(op="mu", i=0, diff=3.0),
         dict(op="mc", i=0, data=2),
+        dict(op="mc", i=0, data=6),
         dict(op="h1", solver=["m", 0], mu=2.0, omega=1.0, data=0),
         dict(op="h1", solver=["m", 0], mu=2.0, omega=1.0, data=5, dim=3),
     ],
@@ -608,6 +621,10 @@ def sequences(ctx):
                     emit(seq)
     for seq in ws_sequences(ctx.pick(2, 3)):
         emit(seq)
+    # different distance objects in one process (class-level defaults must not be shared): a user-tuned AMG object before / after others
+    for a, b in ((6, 5), (6, 2), (5, 6), (2, 6), (6, 4), (0, 3)):
+        for pa, pb in ((0, 1), (1, 0)) if ctx.big else ((0, 1),):
+            emit([dict(op="di", i=a, pair=pa), dict(op="di", i=b, pair=pb)])
     return out
 
 
@@ -757,6 +774,8 @@ def _run(ctx, d, zyg):
             return "h1"
         if (o["op"] == "sb" and o["solver"] == "d") or (o["op"] == "tvd" and o["method"] == "heterogeneous bregman"):
             return "sb"
+        if o["op"] == "di":
+            return "di"  # distance objects share their class (class-level option dictionaries, ...)
         return None
 
     def process_prefix(si, op):
@@ -765,6 +784,13 @@ def _run(ctx, d, zyg):
         if k is None:
             return []
         hits = [j for j in before[si] if any(default_kind(o) == k for o in seqs[j])]
+        if k == "di":  # every earlier distance object of another configuration may matter: keep one sequence per object
+            per = {}
+            for j in hits:
+                for o in seqs[j]:
+                    if o["op"] == "di":
+                        per.setdefault(o["i"], j)
+            return [seqs[j] for j in dict.fromkeys(per.values())]
         return [seqs[j] for j in dict.fromkeys(hits[:1] + hits[-1:])]
 
     for si, (seq, res) in enumerate(zip(seqs, results)):
@@ -847,7 +873,7 @@ def _run(ctx, d, zyg):
             scale = max(1.0, max(abs(a) for a in v))
             err = max(abs(a - float(b)) for a, b in zip(v, m)) / scale
             worst = max(worst, err)
-            if op.get("exact") or err > 1e-12:
+            if op.get("exact") or err > (1e-5 if op.get("data") in FLOAT32 else 1e-12):
                 ok = False
             else:
                 nnum["within_1e-12"] += 1
@@ -879,7 +905,7 @@ def _run(ctx, d, zyg):
                                  "first_trace_difference": trace_bad})
         ctx.log(f"correspondence stateful-sequences: {ndiff} disagreements, e.g. {json.dumps(first[0])[:300]} impl={first[1]} model={first[2][:200]}")
 
-    ctx.cov["rule"] = ("sequences: quick = all of length <= 2 over the 38-operation alphabet + 500 sampled triples + all of length <= 3 inside each group; thorough = all of "
+    ctx.cov["rule"] = ("sequences: quick = all of length <= 2 over the 41-operation alphabet + 500 sampled triples + all of length <= 3 inside each group; thorough = all of "
                        "length <= 3 over the alphabet without split-Bregman calls + 2500 sampled triples with one such call + all of length <= 4 inside each "
                        "group sharing an object (default H1 solver, default split-Bregman solver, one Jacobi object, MG objects, Anderson objects); "
                        "both tiers: six distance objects (Newton/Bregman x direct-full/direct-pressure/amg-pressure) on 2 (quick) / 3 (thorough) successive pairs; EVERY call of every sequence is compared with "
